@@ -895,6 +895,12 @@ def build_jobs(chk, wd):
             jobs.append((inp, ("aes256", "generate", ["--compress-streams=n"])))
             if inp["kind"] == "boundary-2^16":
                 jobs.append((inp, ("none", "generate", [])))
+    for encf in ("enc-R2,V1.pdf", "enc-R3,V2.pdf"):
+        pth = os.path.join(filecheck.CORPUS_DIR, encf)
+        if os.path.exists(pth):
+            jobs.append(({"name": "probe-" + encf, "path": pth, "kind": "corpus", "npages": None, "features": ["encrypted input, written without encryption"], "id": "?"},
+                         ("none", "disable", ["--normalize-content=y"])))
+            break
     g9 = os.path.join(filecheck.CORPUS_DIR, "good9.pdf")
     if os.path.exists(g9):
         jobs.append(({"name": "good9.pdf", "path": g9, "kind": "corpus", "npages": None, "features": [], "id": "?"}, ("aes128", "disable", [])))
@@ -980,8 +986,22 @@ def part_files(chk, runner, wd):
             continue
         n_parts_objs += int(f[0])
         if len(f) > 1 and f[1]:
-            tie_parts.append({"input": jobs[i][0]["path"], "features": jobs[i][0]["features"], "argv": ["qpdf"] + args,
-                              "objects_(number:model_part:observed_part)": f[1][:300]})
+            # an object without any user that sits in part 4 and is a security handler dictionary: the INPUT's encryption dictionary, written
+            # although the output is not encrypted (a deviation with a concrete input, not a disagreement between model and implementation)
+            odata = open(out, "rb").read()
+            rest = []
+            for d3 in f[1].split(","):
+                num, mp, op_ = d3.split(":")
+                m3 = re.search(rb"(?:^|\n)%s 0 obj\n<<(.{0,600}?)>>\nendobj" % num.encode(), odata, re.S)
+                if mp == "0" and op_ == "4" and m3 and b"/Filter /" in m3.group(1) and b"/V " in m3.group(1) and b"/Encrypt" not in odata[-600:]:
+                    chk.violation({"kind": "property-fails-on-implementation", "part": "parts-classification", "input": jobs[i][0]["path"], "argv": ["qpdf"] + args,
+                                   "why": "part 4 of the unencrypted output holds the input's encryption dictionary as an object nothing references", "object": int(num),
+                                   "object_text": m3.group(0).decode("latin-1")[:300]}, signature="lin:orphan-encryption-dictionary")
+                else:
+                    rest.append(d3)
+            if rest:
+                tie_parts.append({"input": jobs[i][0]["path"], "features": jobs[i][0]["features"], "argv": ["qpdf"] + args,
+                                  "objects_(number:model_part:observed_part)": ",".join(rest)[:300]})
     # shared-object identifiers: model of the last loop of calculateLinearizationData (Lin/SharedIds.v) on the users found in the file
     souts = common.run_lines(runner, ["linshared " + done[k][2] for k in pj], shards=4)
     tie_shared = []
